@@ -260,11 +260,15 @@ func runC08(c *core.Ctx) error {
 	{
 		files := map[string][]byte{}
 		cfg := "SchemaModel_quick.cfg"
-		var cases []smCase
+		var cases, rejected []smCase
 		res, err := tlc.Run(tlc.Opts{Module: "SchemaModel", Cfg: cfg, Workers: 16, Files: files, Timeout: 0, HeapGB: 12, OnLine: func(l string) {
 			var cs smCase
-			if json.Unmarshal([]byte(l), &cs) == nil && cs.Expect == "accept" {
-				cases = append(cases, cs)
+			if json.Unmarshal([]byte(l), &cs) == nil {
+				if cs.Expect == "accept" {
+					cases = append(cases, cs)
+				} else {
+					rejected = append(rejected, cs)
+				}
 			}
 		}})
 		res.Cleanup()
@@ -300,6 +304,16 @@ func runC08(c *core.Ctx) error {
 				p.Variations = append(p.Variations, smWrapInstance(g[0].Skel, o.V))
 			}
 			add(p)
+		}
+		// the statement is about every schema the library accepts: projects the model expects to be refused are
+		// converted too whenever Check() lets them through (all string cases, a sample of the others)
+		sort.Slice(rejected, func(i, j int) bool { return fmt.Sprint(rejected[i]) < fmt.Sprint(rejected[j]) })
+		for i, cs := range rejected {
+			if cs.Kind != "str" && (i+int(c.Seed))%c.Pick(11, 2) != 0 {
+				continue
+			}
+			root, types := smProject(cs)
+			add(oaProgram{Family: "rules-expected-refused:" + cs.Skel + ":" + cs.Kind, Root: root, Types: types})
 		}
 	}
 	// (2) SchemaModelExtra accepted cases
